@@ -73,6 +73,8 @@ def mutate_obs(data, kind, a, b, c, d):
     ba = bytearray(data)
     if kind == "header":
         pos = a % 8
+        if pos >= len(ba):
+            return data        # an earlier mutation already cut the header
         ba[pos] = b % 256
         return bytes(ba)
     if kind == "truncate":
